@@ -190,6 +190,9 @@ def check(ctx):
     # the refinement must be fed the weights and the data of the result in their own slots, also in
     # the MPI driver (shared with C19)
     share(ctx, 'C19', 'R8/C19.', ['R4.mpi_result', 'R4.mpi_refinement'])
+    # weights written to a checkpoint come back as weights: reader and writer agree on the order of
+    # the (adjustment datum, weight) pairs (shared with C05)
+    share(ctx, 'C05', 'R9/C05.', ['i.sequence', 'vii.'])
 
 
 
